@@ -125,7 +125,7 @@ func pick(all [][]byte, n int, rng *rand.Rand, contiguous bool) [][]byte {
 }
 
 // Names lists the palette kinds.
-var Names = []string{"single", "prefix", "long", "ff", "random"}
+var Names = []string{"single", "prefix", "long", "ff", "random", "mid"}
 
 // New builds palette kind name for K keys.
 func New(name string, k int, seed int64) *Palette {
@@ -159,6 +159,18 @@ func New(name string, k int, seed int64) *Palette {
 			p.pos = append(p.pos, append(append([]byte(nil), pre...), s...))
 		}
 		p.vals = mkvals(true)
+	case "mid":
+		// keys and values whose length prefix sits at the one-byte / two-byte varint boundary (127, 128 ... 255, 256)
+		pre := bytes.Repeat([]byte{'m'}, 126+rng.Intn(3))
+		all := enumerate([]byte{0x00, 0x01, 0x7f, 0x80, 0xff}, 2)
+		sel := pick(all, n, rng, false)
+		for _, s := range sel {
+			p.pos = append(p.pos, append(append([]byte(nil), pre...), s...))
+		}
+		p.vals = [][]byte{{}}
+		for _, l := range []int{127, 128, 129, 200, 255, 256, 300} {
+			p.vals = append(p.vals, bytes.Repeat([]byte{byte('a' + l%7)}, l))
+		}
 	case "ff":
 		all := enumerate([]byte{0x00, 0xfe, 0xff}, 3)
 		// keep the 0xff-heavy tail
